@@ -3,7 +3,9 @@ import MemVerif.Props.C19
 /-!
 # C02 — `memory_pool` over either intrusive free list: what is returned is aligned, sized and contiguous
 
-The pool invariant's **conservation** clause (`PInvG.conserve`, `Lemmas/C01PoolG.lean`) says that the free cells
+For the two intrusive lists (`hint : o` is not the small list; the small node pool's grid is the chunk grid, see
+`C01Ord.C01_smallpool_list_wellformed_partial`): the pool invariant's **conservation** clause (`PInvG.conserve`,
+`Lemmas/C01PoolG.lean`) says that the free cells
 together with the cells of the live allocations are, as a multiset, exactly the cells the blocks in use were cut into:
 `usable size / node size` cells from the start of each block's usable part. Hence every address the pool ever handed
 out and that is still live sits on the node grid of one of its blocks — after any amount of growth, for nodes and for
@@ -26,8 +28,8 @@ theorem run_head_mem (a ns c : Nat) (hc : 0 < c) : a ∈ blockNodes a ns c := by
 
 /-- **Every live allocation sits on the node grid of a block in use**, with all its cells inside that block:
 `a = block + 16 + j * node_size`. -/
-theorem C02_ipool_on_grid_partial (cfg : Cfg) (e : EnvS) (ns : Nat) (o : Option Nat) (g : GPool) (k : Nat)
-    (ops : List POp) (hI : GInvG ns o g) (hfit : ∀ op ∈ ops, op.Fits ns)
+theorem C02_ipool_on_grid_partial (cfg : Cfg) (e : EnvS) (ns : Nat) (o : AnyList.ListObj) (g : GPool) (k : Nat)
+    (ops : List POp) (hI : GInvG ns o g) (hfit : ∀ op ∈ ops, op.Fits ns) (hint : ∀ P, o ≠ .small P)
     (henv : EnvOkG o (g.run cfg e k ops).1.p.arena.used) :
     ∀ ab ∈ (g.run cfg e k ops).1.live, ∃ b ∈ (g.run cfg e k ops).1.p.arena.used, ∃ j,
       ab.1 = b.base + implOff + j * ns ∧ ab.1 + cellsOf ns ab.2 * ns ≤ b.base + b.size ∧ ab.2 ≤ cellsOf ns ab.2 * ns := by
@@ -38,6 +40,7 @@ theorem C02_ipool_on_grid_partial (cfg : Cfg) (e : EnvS) (ns : Nat) (o : Option 
   have hm : ab.1 ∈ (g.run cfg e k ops).1.p.list.cells ++ liveCells ns (g.run cfg e k ops).1.live :=
     List.mem_append_right _ (List.mem_flatMap.mpr ⟨ab, hab, run_head_mem _ _ _ hpos⟩)
   have hm' := h.conserve.subset hm
+  rw [cellsOfBlocks_intrusive _ _ (by rw [h.objEq]; exact hint), h.nsEq] at hm'
   obtain ⟨b, hb, hin⟩ := List.mem_flatMap.mp hm'
   obtain ⟨j, _, hj⟩ := mem_blockNodes.mp hin
   -- and the whole allocation lies in one block: the same one, since blocks are disjoint
@@ -97,14 +100,14 @@ theorem alignmentFor_dvd (ns : Nat) (h0 : 0 < ns) (hlt : ns < 2 ^ 64) :
 `max_alignment`-aligned address (what `malloc`/`new`/`mmap` and the library's own block allocators give), every live
 allocation of a pool over an intrusive list is aligned to `alignment_for(node_size)` — the alignment the pool's traits
 accept (`max_alignment(state)`), for nodes and arrays, in every block. -/
-theorem C02_ipool_aligned_partial (cfg : Cfg) (e : EnvS) (ns : Nat) (o : Option Nat) (g : GPool) (k : Nat)
-    (ops : List POp) (hI : GInvG ns o g) (hfit : ∀ op ∈ ops, op.Fits ns) (hlt : ns < 2 ^ 64)
+theorem C02_ipool_aligned_partial (cfg : Cfg) (e : EnvS) (ns : Nat) (o : AnyList.ListObj) (g : GPool) (k : Nat)
+    (ops : List POp) (hI : GInvG ns o g) (hfit : ∀ op ∈ ops, op.Fits ns) (hlt : ns < 2 ^ 64) (hint : ∀ P, o ≠ .small P)
     (henv : EnvOkG o (g.run cfg e k ops).1.p.arena.used)
     (halign : ∀ b ∈ (g.run cfg e k ops).1.p.arena.used, 16 ∣ b.base) :
     ∀ ab ∈ (g.run cfg e k ops).1.live, (alignmentFor (BitVec.ofNat 64 ns)).toNat ∣ ab.1 := by
   intro ab hab
   have h := GPool.run_invG cfg e ops g k hI hfit henv
-  obtain ⟨b, hb, j, hj, _, _⟩ := C02_ipool_on_grid_partial cfg e ns o g k ops hI hfit henv ab hab
+  obtain ⟨b, hb, j, hj, _, _⟩ := C02_ipool_on_grid_partial cfg e ns o g k ops hI hfit hint henv ab hab
   obtain ⟨d1, d2⟩ := alignmentFor_dvd ns h.cell.nsPos hlt
   rw [hj, implOff_eq]
   exact Nat.dvd_add (Nat.dvd_add (Nat.dvd_trans d2 (halign b hb)) d2) (Nat.dvd_mul_left_of_dvd d1 j)
@@ -112,14 +115,14 @@ theorem C02_ipool_aligned_partial (cfg : Cfg) (e : EnvS) (ns : Nat) (o : Option 
 /-- **Arrays are contiguous and whole**: a live array obtained by `allocate_array(n)` (`n * node_size` bytes in the
 ledger) occupies exactly `n` consecutive cells of one block, so element `i` (`i < n`) is the cell at
 `base + i * node_size`, inside the block, and distinct live allocations never share a cell (C01). -/
-theorem C02_ipool_array_elements_partial (cfg : Cfg) (e : EnvS) (ns : Nat) (o : Option Nat) (g : GPool) (k : Nat)
-    (ops : List POp) (hI : GInvG ns o g) (hfit : ∀ op ∈ ops, op.Fits ns)
+theorem C02_ipool_array_elements_partial (cfg : Cfg) (e : EnvS) (ns : Nat) (o : AnyList.ListObj) (g : GPool) (k : Nat)
+    (ops : List POp) (hI : GInvG ns o g) (hfit : ∀ op ∈ ops, op.Fits ns) (hint : ∀ P, o ≠ .small P)
     (henv : EnvOkG o (g.run cfg e k ops).1.p.arena.used) (a n : Nat) (hn : 0 < n)
     (hab : (a, n * ns) ∈ (g.run cfg e k ops).1.live) :
     ∃ b ∈ (g.run cfg e k ops).1.p.arena.used, ∀ i, i < n →
       b.base + implOff ≤ a + i * ns ∧ a + i * ns + ns ≤ b.base + b.size := by
   have h := GPool.run_invG cfg e ops g k hI hfit henv
-  obtain ⟨b, hb, j, hj, hend, _⟩ := C02_ipool_on_grid_partial cfg e ns o g k ops hI hfit henv (a, n * ns) hab
+  obtain ⟨b, hb, j, hj, hend, _⟩ := C02_ipool_on_grid_partial cfg e ns o g k ops hI hfit hint henv (a, n * ns) hab
   refine ⟨b, hb, ?_⟩
   intro i hi
   simp only at hj hend
@@ -138,7 +141,7 @@ example :
     let ops : List POp := [.allocNode, .allocArray 2, .allocNode, .dealloc 1, .allocArray 3, .allocNode]
     let c := Pool.create cfg (.growing 2 1 112) (.ord (OrdList.new 24 64 72)) true [e 0]
     let g := ((⟨c.st, []⟩ : GPool).run cfg e 1 ops).1
-    EnvOkG (some 64) g.p.arena.used ∧ (∀ b ∈ g.p.arena.used, 16 ∣ b.base) ∧ g.p.arena.used.length = 2 ∧
+    EnvOkG (.ordered 64) g.p.arena.used ∧ (∀ b ∈ g.p.arena.used, 16 ∣ b.base) ∧ g.p.arena.used.length = 2 ∧
       (alignmentFor (BitVec.ofNat 64 24)).toNat = 8 ∧ g.live.length = 4 ∧ ∀ ab ∈ g.live, 8 ∣ ab.1 := by
   decide
 
